@@ -195,7 +195,8 @@ def check_cancel(ctx, fb, rc):
 
 
 def run(ctx):
-    fbs = ctx.facts(['K17', 'K20', 'K20n'], kinds=('probe', 'lib'), only=r'p_async\.cpp$|p_coro\.cpp$|src/', tests=r'/test/')
+    fbs = ctx.facts(['K17', 'K20', 'K20n'], kinds=('probe', 'lib'), only=r'p_async\.cpp$|p_coro\.cpp$|src/', tests=r'/test/',
+                    quick_tests=r'unit/async/(task|make_task)\.cpp')
     rh = ctx.rule('R-HEAD', 'every Task-head kind, partially evaluated with its construction-time fields, reaches its '
                   'own work when started through Here/Next, without touching the null caller slot or reading the '
                   'starter as a completed core', minimum=30)
